@@ -193,6 +193,12 @@ theorem clear_spec (X : Ctx) (hq : ∀ k, X.o.panicAt k = false) (s : St) (es : 
   have := truncate_spec X hq s es 0 h
   simpa [Vec.clear] using this
 
+theorem lift_isDefault (X : Ctx) (s : St) : VM.lift X GM.isDefault s = (.ok s.v.isDefault, s) :=
+  lift_read X _ s _ (by simp [GM.isDefault, hsOf])
+
+theorem lift_hdrLen (X : Ctx) (s : St) (hd : s.v.isDefault = false) : VM.lift X GM.hdrLen s = (.ok s.v.len, s) :=
+  lift_read X _ s _ (by simp [GM.hdrLen, hsOf, hd])
+
 end MV
 
 #print axioms MV.dropVec_spec
